@@ -124,7 +124,9 @@ static std::map<const char *, size_t> g_blocks;   // metadata pointer -> allocat
 static void run_search(Rng &r)
 {
     // a root table with a few sub tables; names with common prefixes, duplicates, "a/" next to "a/b"
-    static const char *POOL[] = {"a/", "a/b", "a/b/", "a/x:", "a/y:", "b", "b2", "b2:i", "c/d/e:", "c/d/", "ab/", "a", "ab", "abc::f", "c/", "zz#4/", "zz#4/q", "m", "a/"};
+    static const char *POOL[] = {"a/", "a/b", "a/b/", "a/x:", "a/y:", "b", "b2", "b2:i", "c/d/e:", "c/d/", "ab/", "a", "ab", "abc::f", "c/", "zz#4/", "zz#4/q", "m", "a/", "q/", "q/"};
+    // the sub-table hangs below "ab/" or below the one-character "q/"
+    const std::string subname = r.chance(0.6) ? "ab/" : "q/";
     for(auto &kv : g_blocks) free((void *)kv.first);
     g_blocks.clear();
     tg::DynPorts root, sub;
@@ -133,7 +135,7 @@ static void run_search(Rng &r)
     auto fill = [&](tg::DynPorts &dp, std::vector<Child> &cs, int n, bool may_sub) {
         for(int i = 0; i < n; ++i) {
             Child c;
-            c.name = POOL[r.below(19)];
+            c.name = POOL[r.below(21)];
             if(r.chance(0.2)) c.name = std::string(1, "abcxyz"[r.below(6)]) + (r.chance(0.5) ? "/" : "") ;
             std::string mb = meta_block(r);
             const char *mp = 0;
@@ -147,7 +149,7 @@ static void run_search(Rng &r)
                 c.meta = mb.empty() ? std::string() : std::string(mb.c_str(), mb.size() + 1);
             }
             keep.push_back(c.name);
-            dp.add(rtosc::Port{keep.back().c_str(), mp, (may_sub && c.name == "ab/") ? &sub : nullptr, [](const char *, rtosc::RtData &) {}});
+            dp.add(rtosc::Port{keep.back().c_str(), mp, (may_sub && c.name == subname) ? &sub : nullptr, [](const char *, rtosc::RtData &) {}});
             cs.push_back(c);
         }
         dp.done();
@@ -159,10 +161,16 @@ static void run_search(Rng &r)
     std::string loc = r.chance(0.4) ? "" : r.chance(0.5) ? "/" : "";
     const std::vector<Child> *children = &rootc;
     bool has_ab = false; size_t nab = 0;
-    for(auto &c : rootc) if(c.name == "ab/") { has_ab = true; ++nab; }
+    for(auto &c : rootc) if(c.name == subname) { has_ab = true; ++nab; }
     bool clash = false;
-    for(auto &c : rootc) if(c.name != "ab/" && (c.name.compare(0, 2, "ab") == 0 || c.name == "a" || c.name == "a/")) clash = true;
-    if(has_ab && nab == 1 && !clash && r.chance(0.4)) { loc = "/ab"; children = &subc; }
+    if(subname == "ab/") { for(auto &c : rootc) if(c.name != "ab/" && (c.name.compare(0, 2, "ab") == 0 || c.name == "a" || c.name == "a/")) clash = true; }
+    else { for(auto &c : rootc) if(c.name != "q/" && c.name.compare(0, 1, "q") == 0) clash = true; }
+    if(has_ab && nab == 1 && !clash && r.chance(0.4)) {
+        // spelled with or without the leading slash (upstream's test/path-search.cpp uses the relative form)
+        loc = subname == "ab/" ? (r.chance(0.7) ? "/ab" : "ab") : (r.chance(0.5) ? "/q" : "q");
+        children = &subc;
+        if(loc.size() == 1) count("search.one_character_relative_location");
+    }
     static const char *NEEDLES[] = {"", "", "a", "a/", "b", "ab", "c/d", "z", "a/b", "q"};
     std::string needle = NEEDLES[r.below(10)];
     int oi = (int)r.below(3);
